@@ -17,3 +17,5 @@ def run(ck):
     matrix.r10_affine_helper_precondition(ck, P)
     matrix.r11_product_indices(ck, P)
     matrix.r12_inverse_guarded(ck, P)
+    matrix.r13_narrowed_results_range_tested(ck, P)
+    matrix.r14_negation_excludes_minimum(ck, P)
